@@ -237,6 +237,26 @@ func runC12(c *Checker) {
 				uncond = true
 			}
 		}
+		// ... really on every path: no return of the once body is reachable without passing it (an
+		// early return on an error of one of the releases leaves Done() open for ever)
+		if uncond {
+			allInstrs(b, func(in ssa.Instruction) {
+				ret, ok := in.(*ssa.Return)
+				if !ok || ret.Block().Comment == "recover" {
+					return
+				}
+				if pathFromEntry(b, ret, func(x ssa.Instruction) bool {
+					for _, q := range cq {
+						if x == ssa.Instruction(q) {
+							return true
+						}
+					}
+					return false
+				}) {
+					uncond = false
+				}
+			})
+		}
 		c.decide(uncond, "ONCE", n+"|close(quit)", b.Pos(), "close(quit) on every path of the once body", "the quit channel (returned by Done) is not closed on every path of Close")
 	}
 	c.floor("ONCE", 7)
